@@ -339,14 +339,14 @@ Lemma zrestrict_U : forall n s c f vars level,
                   (fun s1 c1 child => zufin C s1 c1 level child child)
             else if negb (Nat.eqb flevel level) then zrestrict C cget cadd n s c f vhi (S level)
             else
-              match cget c zcode_restrict [f; vars] [] with
+              match cget c zcode_restrict [f; vars] [nlevels s] with
               | Some r => Some (s, c, r)
               | None =>
                 ujoin2 (zrestrict C cget cadd n s c (eref fhi) vhi (S level))
                   (fun s1 c1 => zrestrict C cget cadd n s1 c1 (eref flo) vhi (S level))
                   (fun s2 c2 hi lo =>
                      ufin (zmk_node s2 level hi lo)
-                          (fun r => cadd c2 zcode_restrict [f; vars] [] r) (fun r => r))
+                          (fun r => cadd c2 zcode_restrict [f; vars] [nlevels s] r) (fun r => r))
               end
           end
         | _ =>
@@ -383,14 +383,14 @@ Lemma zrestrict_c_S : forall n s c f vars level,
                   (fun s1 c1 child => zfin_c C cap s1 c1 level child child)
             else if negb (Nat.eqb flevel level) then zrestrict_c C cget cadd cap par n s c f vhi (S level)
             else
-              match cget c zcode_restrict [f; vars] [] with
+              match cget c zcode_restrict [f; vars] [nlevels s] with
               | Some r => GOk s c r
               | None =>
                 gjoin2 (par n) (zrestrict_c C cget cadd cap par n s c (eref fhi) vhi (S level))
                   (fun s1 c1 => zrestrict_c C cget cadd cap par n s1 c1 (eref flo) vhi (S level))
                   (fun s2 c2 hi lo =>
                      gfin s2 c2 (zmk_node_cap cap s2 level hi lo)
-                          (fun r => cadd c2 zcode_restrict [f; vars] [] r) (fun r => r))
+                          (fun r => cadd c2 zcode_restrict [f; vars] [nlevels s] r) (fun r => r))
               end
           end
         | _ =>
@@ -428,7 +428,7 @@ Proof.
       * destruct (zempty s); [apply sim_here | apply sim_stuck].
       * apply gbind_sim; [apply IH | intros; apply zfin_sim].
     + destruct (negb (Nat.eqb (nstored fnd) level)); [apply IH|].
-      destruct (cget c zcode_restrict [f; vars] []); [apply sim_here|].
+      destruct (cget c zcode_restrict [f; vars] [nlevels s]); [apply sim_here|].
       apply gjoin2_sim; [apply IH | intros; apply IH | intros; apply zfin_add_sim].
 Qed.
 
